@@ -87,7 +87,7 @@ def one_model(ctx, rng, nseeds):
     dt = float(T[1] - T[0])
     seeds = [rng.randint(1, 2**31) for _ in range(nseeds)]
     p_before = np.array(M.get_parameter_values()).copy()
-    for kind, safe in (("ssa", False), ("ssa", True), ("volume", False), ("delay", False)):
+    for kind, safe in (("ssa", False), ("ssa", True), ("volume", False), ("delay", False), ("delayvolume", False), ("volume", True)):
         M.set_params({k: float(v) for k, v in spec["params"].items()})      # parameter rules write the shared array
         jobs = [sim_job(M, kind, T, s, dt, safe=safe, fuel=simcorr.FUEL, spec=spec) for s in seeds]
         ans = driver_batch(jobs)
@@ -292,7 +292,7 @@ def replay(ctx, obj):
 def describe(ctx):
     rule = ("models = random mass-action network + rules chained in dependency order (additive S=A+B; assignment R=2S+c; parameter "
             "assignment q=1+A/(1+B) feeding a rate; dt counter N=N+1; a rule scheduled at a grid time; ODE rule dW/dt=c), simulated by "
-            "SSA, safe SSA, volume, delay (bit-exact against the Lean loops, whose rule pass is Model/Rules.lean) and the deterministic "
+            "SSA, safe SSA, volume, safe volume, delay, delay+volume (bit-exact against the Lean loops, whose rule pass is Model/Rules.lean) and the deterministic "
             "simulator; oracle on implementation rows: repeated rules hold exactly on every row, counter +1 per row from the second "
             "row on, scheduled rule leaves earlier rows untouched and fixes later ones, ODE target +rate*dt per row; unit "
             "correspondence of py_execute_rule / py_execute_volume_rule on random states (all frequencies); lineage single-cell runs "
